@@ -560,15 +560,18 @@ def _signature(case, item, clauses):
             last = o["k"]
     else:
         last = "-"
-    return {
+    sig = {
         "clauses": sorted(clauses),
-        "kind": case["kind"],
         "last_outcome": last,
         "last_body_shape": calls[-1]["o"]["shape"] if calls else "",
         "finished": item["st"]["k"],
         "escaped_as": "" if item["st"]["rally"] or item["st"]["k"] != "raised" else item["st"]["cls"],
-        "n_calls": min(len(calls), 12) if len(calls) >= 10 else "<10",
     }
+    if {"Budget", "ExhaustionRaises", "RetriesTransient"} & set(clauses) and not sig["escaped_as"]:
+        sig["n_calls"] = min(len(calls), 12) if len(calls) >= 10 else "<10"
+    if "ReturnsFirstSuccess" in clauses:
+        sig["kind"] = case["kind"]
+    return sig
 
 
 SITUATIONS = {}
@@ -601,7 +604,7 @@ def run_cases(cases, out, label, chunk=20000):
     for ci, case in enumerate(cases):
         item, detail = execute(case)
         _count_situations(case)
-        item["id"] = "%s-%d" % (label, ci)
+        item["id"] = "%s-%s-%d" % (label, case["src"], ci)
         items.append(item)
         index[item["id"]] = (case, item, detail)
         out.add_case((case["op"], [s[:4] + [_shape(s)] for s in case["script"]]), nontrivial=len(item["calls"]) >= 2)
@@ -617,8 +620,8 @@ def run_cases(cases, out, label, chunk=20000):
                 ",".join(clauses),
                 case,
                 signature=_signature(case, item, clauses),
-                detail="op=%s outcomes=%s -> %d calls, pauses=%s finished=%s %s"
-                % (case["op"], [(s[0], s[1] or s[2] or "", _shape(s)) for s in case["script"]], len(item["calls"]), [c["p"] for c in item["calls"]], {k: v for k, v in item["st"].items() if v not in ("", 0, False)}, detail),
+                detail="last=%s/%s op=%s outcomes=%s -> %d calls, pauses=%s finished=%s %s"
+                % (_signature(case, item, clauses)["last_outcome"], _signature(case, item, clauses)["last_body_shape"], case["op"], [(s[0], s[1] or s[2] or "", _shape(s)) for s in case["script"]], len(item["calls"]), [c["p"] for c in item["calls"]], {k: v for k, v in item["st"].items() if v not in ("", 0, False)}, detail),
             )
         )
     for tid in verdicts.l2:
@@ -664,7 +667,8 @@ def run(ctx, out):
     out.extra["public_operations"] = ops
     chooser = OpChooser(ops)
     # ---- Leg M
-    model_check(out, "Guarded.small.cfg")
+    if not quick:
+        model_check(out, "Guarded.small.cfg")
     model_check(out, "Guarded.shapes.cfg")
     model_check(out, "Guarded.view.cfg")
     wd = tlc.prepare_workdir("Guarded", "c17selftest")
@@ -690,16 +694,18 @@ def run(ctx, out):
         for _ in range(4):
             cover += edge_cover(ops, rnd)
     out.note("leg S2C: edge cover %d cases over %d operations" % (len(cover), len(ops)))
-    items = run_cases(cover, out, "edge")
-    pick = next(i for i, c in enumerate(cover) if c["kind"] == "bulk" and len(c["script"]) >= 3)
-    out.sample({"source": "edge-cover", "op": cover[pick]["op"], "script": cover[pick]["script"], "recorded": items[pick]})
-    sims = behaviours_from_sim(ctx, out, 1500 if quick else 40000, rnd, chooser)
+    sims = behaviours_from_sim(ctx, out, 1200 if quick else 40000, rnd, chooser)
     out.note("leg S2C: %d TLC -simulate behaviours" % len(sims))
-    items = run_cases(sims, out, "sim")
     # ---- cases not derived from TLC
     rnd_cases = random_cases(ctx.seed + 170, 3000 if quick else 60000, ops)
-    items = run_cases(rnd_cases, out, "rnd")
-    out.sample({"source": "random", "op": rnd_cases[0]["op"], "script": rnd_cases[0]["script"], "recorded": items[0]})
+    # one validation run for the three groups (ids keep the group)
+    items = run_cases(cover + sims + rnd_cases, out, "esr")
+    pick = next(i for i, c in enumerate(cover) if c["kind"] == "bulk" and len(c["script"]) >= 3)
+    out.sample({"source": "edge-cover", "op": cover[pick]["op"], "script": cover[pick]["script"], "recorded": items[pick]})
+    pick = next(i for i, c in enumerate(cover) if c["kind"] == "plain" and len(c["script"]) >= 2 and _shape(c["script"][0]) not in ("", "es"))
+    out.sample({"source": "edge-cover", "op": cover[pick]["op"], "script": cover[pick]["script"], "recorded": items[pick]})
+    first_rnd = len(cover) + len(sims)
+    out.sample({"source": "random", "op": rnd_cases[0]["op"], "script": rnd_cases[0]["script"], "recorded": items[first_rnd]})
     per_op = {}
     for c in cases + cover + sims + rnd_cases:
         per_op[c["op"]] = per_op.get(c["op"], 0) + 1
